@@ -100,6 +100,7 @@ Definition show_outcome (o : outcome cw) : string :=
   | Done r => "ok " ++ show_topics (res_topics cw r) ++ " / " ++ show_infos (res_infos cw r) ++ " / " ++ show_N (res_remote cw r)
   | Fail UnexpectedMessage => "err UnexpectedMessage"
   | Fail StreamErr => "err Stream"
+  | Fail SinkErr => "err Sink"
   end.
 
 Definition show_msg (dir : string) (m : cmsg) : string :=
@@ -131,14 +132,16 @@ Definition model_honest (ra rb : bool) (ta tb : list N) (bookA bookB : list (N *
   show_msgs (interleave (map (show_msg "a") (fst (fst s))) (map (show_msg "b") (fst (snd s)))) ++
   " | leaks " ++ csv (leaks_from 1 (transcript cw N cw_eqb cH pa pb 0%N 1%N)).
 
+(** [sink = Some k]: the peer drops its receiver after reading [k] messages. *)
 Definition run_script (alice : bool) (r : bool) (ts : list N) (book : list (N * bool * option N * list N))
-           (script : list sitem) : list cmsg * outcome cw :=
-  if alice then alice_run cw N cw_eqb cH (alice_party r ts book) 0%N (map (to_rx 1%N) script)
-  else bob_run cw N cw_eqb cH (bob_party r ts book) 1%N (map (to_rx 0%N) script).
+           (script : list sitem) (sink : option nat) : list cmsg * outcome cw :=
+  let k := match sink with Some k => k | None => 3 end in
+  if alice then alice_run_k cw N cw_eqb cH k (alice_party r ts book) 0%N (map (to_rx 1%N) script)
+  else bob_run_k cw N cw_eqb cH k (bob_party r ts book) 1%N (map (to_rx 0%N) script).
 
 Definition model_script (alice : bool) (r : bool) (ts : list N) (book : list (N * bool * option N * list N))
-           (script : list sitem) : string :=
-  let '(sent, out) := run_script alice r ts book script in
+           (script : list sitem) (sink : option nat) : string :=
+  let '(sent, out) := run_script alice r ts book script sink in
   show_outcome out ++ " | " ++ show_msgs (map (show_msg (if alice then "a" else "b")) sent) ++
   " | leaks " ++ csv (leaks_from 1 sent).
 
@@ -196,6 +199,7 @@ Definition err_eqb (a b : option err) : bool :=
   | None, None => true
   | Some UnexpectedMessage, Some UnexpectedMessage => true
   | Some StreamErr, Some StreamErr => true
+  | Some SinkErr, Some SinkErr => true
   | _, _ => false
   end.
 
@@ -206,14 +210,21 @@ Definition kinds_ok (alice : bool) (ms : list cmsg) : bool :=
   Nat.leb (List.length ms) (List.length want) &&
   forallb (fun p => kind_eqb (kind_of cw N (fst p)) (snd p)) (combine ms want).
 
-(** One real side against an arbitrary scripted peer. *)
+(** One real side against an arbitrary scripted peer whose receiver accepts [sink] messages.
+    The expected outcome comes from the message-order specification [expect] (not from the
+    model functions): the side would send [want] messages; if the sink takes fewer, the outcome
+    must be [Sink] after exactly that many. *)
 Definition check_script (alice : bool) (r : bool) (ts : list N) (book : list (N * bool * option N * list N))
-           (script : list sitem) (o : outcome cw) (sent : list cmsg) (leaks : nat) : bool :=
+           (script : list sitem) (sink : option nat) (o : outcome cw) (sent : list cmsg) (leaks : nat) : bool :=
   let inc := map (to_rx (if alice then 1%N else 0%N)) script in
   let '(e, n) := expect cw N (if alice then alice_expects else bob_expects) inc 0 in
+  let want := if alice then S n else Nat.min 2 n in
+  let k := match sink with Some k => k | None => 3 end in
   let own := map Raw ts in
-  err_eqb (outcome_err_b o) e &&
-  Nat.eqb (List.length sent) (if alice then S n else Nat.min 2 n) && kinds_ok alice sent &&
+  (if Nat.leb want k
+   then err_eqb (outcome_err_b o) e && Nat.eqb (List.length sent) want
+   else err_eqb (outcome_err_b o) (Some SinkErr) && Nat.eqb (List.length sent) k) &&
+  kinds_ok alice sent &&
   Nat.eqb leaks 0 && no_raw_words sent &&
   match o with
   | Done res =>
